@@ -95,6 +95,7 @@ pub fn gen_app(g: &mut Gen, depth: usize, params_used: usize, fangs_ok: bool) ->
     let mut reserved_first: Vec<String> = Vec::new();
     let mut param_mount = false;
     let mut mounts: Vec<Item> = Vec::new();
+    let relax = !fangs_ok && depth == 0 && t::chance(1, 3);
     if depth < 2 {
         let n_mounts = t::weighted(&[5, 3, 1]);
         for _ in 0..n_mounts {
@@ -133,7 +134,9 @@ pub fn gen_app(g: &mut Gen, depth: usize, params_used: usize, fangs_ok: bool) ->
             } else {
                 t::pick(&vocab).to_string()
             };
-            if i == 0 && (param_mount || reserved_first.contains(&seg) || (seg.starts_with(':') && reserved_first.iter().any(|r| r.starts_with(':')))) {
+            // (without fangs there is no scope to keep apart: the enclosing application may register routes at and below a
+            // static mount prefix too — C04's side condition is C04's)
+            if i == 0 && (param_mount || (reserved_first.contains(&seg) && !relax) || (seg.starts_with(':') && reserved_first.iter().any(|r| r.starts_with(':')))) {
                 // this first segment belongs to a mounted application
                 lit.clear();
                 break;
@@ -158,6 +161,44 @@ pub fn gen_app(g: &mut Gen, depth: usize, params_used: usize, fangs_ok: bool) ->
     items.extend(mounts);
     if items.is_empty() && (depth == 0 || n_routes > 0) {
         items.push(Item::Routes { path: "/".into(), methods: gen_methods(g, params_used, fangs_ok) });
+    }
+    if relax {
+        // one handler per (route, method): where the enclosing application collides with a mounted one, it gives way
+        let mut taken: Vec<(Vec<Seg>, String)> = Vec::new();
+        fn collect(app_items: &[Item], prefix: &[Seg], taken: &mut Vec<(Vec<Seg>, String)>) {
+            for it in app_items {
+                match it {
+                    Item::Routes { path, methods } => {
+                        let mut segs = prefix.to_vec();
+                        segs.extend(appgen::parse_route(path));
+                        for m in methods.keys() {
+                            taken.push((segs.clone(), m.clone()));
+                        }
+                    }
+                    Item::Mount { prefix: p, app } => {
+                        let mut pre = prefix.to_vec();
+                        pre.extend(appgen::parse_route(p));
+                        collect(&app.items, &pre, taken);
+                    }
+                }
+            }
+        }
+        for it in &items {
+            if let Item::Mount { prefix, app } = it {
+                collect(&app.items, &appgen::parse_route(prefix), &mut taken);
+            }
+        }
+        for it in items.iter_mut() {
+            if let Item::Routes { path, methods } = it {
+                let segs = appgen::parse_route(path);
+                methods.retain(|m, _| !taken.iter().any(|(s2, m2)| *s2 == segs && m2 == m));
+            }
+        }
+        items.retain(|it| !matches!(it, Item::Routes { methods, .. } if methods.is_empty()));
+        if !items.iter().any(|it| matches!(it, Item::Routes { .. })) {
+            g.next_handler += 1;
+            items.push(Item::Routes { path: "/zz-root-only".into(), methods: [("GET".to_string(), HandlerSpec { id: g.next_handler, n_params: 0, local_fangs: vec![] })].into_iter().collect() });
+        }
     }
     t::shuffle(&mut items);
     let fangs: Vec<FangSpec> = if fangs_ok {
